@@ -381,6 +381,23 @@ func genStream(t *rapid.T) Stream {
 		case 0, 1:
 			lines = append(lines, fmt.Sprintf("HFDTE%02d%02d%02d", rapid.IntRange(0, 32).Draw(t, "d"), rapid.IntRange(0, 13).Draw(t, "m"), rapid.IntRange(0, 99).Draw(t, "y")))
 		case 2:
+			if rapid.Bool().Draw(t, "hgrammar") {
+				// an H record from its grammar: source, subject (with or without its long
+				// name and colon), padding in any place, a date of 0..8 characters that is
+				// a valid day-month-year prefix, digits or signs, and what may follow it
+				pad := func(l string) string {
+					return rapid.SampledFrom([]string{"", "", "", " ", "  ", "   ", "\t", " \t "}).Draw(t, l)
+				}
+				h := "H" + rapid.SampledFrom([]string{"F", "F", "F", "O", "P", "S", ""}).Draw(t, "hsrc") +
+					rapid.SampledFrom([]string{"DTE", "DTE", "DTE", "DTEDATE:", "DTEDATE:", "DTE:", "Dte", "DTM100GPSDATUM:", "FXA", "PLTPILOT:"}).Draw(t, "hsubj") + pad("hpad1")
+				date := rapid.SampledFrom([]string{"150424", "010100", "311299", "290200", "1504", "150", "15", "1", "", "15042024", "-10424", "15-424", "+50424", "1504 4", "320199", "011399"}).Draw(t, "hdate")
+				if rapid.IntRange(0, 3).Draw(t, "hdigits") == 0 {
+					date = digits(t, rapid.IntRange(0, 8).Draw(t, "hdn"), "hdd")
+				}
+				h += date + pad("hpad2") + rapid.SampledFrom([]string{"", "", ",01", ",", ",1", ", 01", ",0102"}).Draw(t, "hflight") + pad("hpad3")
+				lines = append(lines, h)
+				break
+			}
 			lines = append(lines, rapid.SampledFrom([]string{"HFDTEDATE:010203,01", "HFDTE", "HFDTE0102", "H", "HF", "HFPLTPILOT: x", "HFDTE-1-1-1", "HOXXX", "HFDTE3113-1"}).Draw(t, "h"))
 		case 3:
 			l, good := iLine(t, &cur)
